@@ -167,10 +167,13 @@ def counter_correspondence(chk, n):
         lines.append("counter 1000000 " + " ".join(evs))
         real.append("C %d %d%s" % (total, -1 if retained[0] is None else int(retained[0]), "".join(" %d" % p for p in pubs)))
         restore_first = all(evs[i + 1:i + 2] == ["r"] for i, e in enumerate(evs) if e == "k")
-        if restore_first and any(b < a for a, b in zip(pubs, pubs[1:])) and not hasattr(chk, "_c11_counter_viol"):
+        expected = sum(int(e[1:]) for e in evs if e.startswith("a"))
+        n_restores = sum(1 for e in evs if e == "r")
+        lost = restore_first and abs(total - expected) > (n_restores + 1) * 500_000 + 1
+        if restore_first and (lost or any(b < a for a, b in zip(pubs, pubs[1:]))) and not hasattr(chk, "_c11_counter_viol"):
             # the statement itself: with the restore delivered before the first publish after each restart the retained
             # life counter never goes backwards
-            chk._c11_counter_viol = {"events": evs, "published_total_seconds": pubs}
+            chk._c11_counter_viol = {"events": evs, "published_total_seconds": pubs, "final_total_us": total, "heating_time_us": expected}
         if any(b < a for a, b in zip(pubs, pubs[1:])):
             dist["decreasing_real"] += 1
             if example_decrease is None:
@@ -434,7 +437,7 @@ def run(chk):
     chk.extra["k3_exhibit_on_real_Duration"] = ex
     cv = getattr(chk, "_c11_counter_viol", None)
     if cv is not None:
-        chk.violation("heating-total-decreases", f"the retained heat-pump life counter went backwards although every restore preceded the first publish after its restart: published {cv['published_total_seconds']} for the history {cv['events']} (aN = N us of heating, k = kill/restart, r = restore of the retained value)", {"kind": "counter", "events": cv["events"], "published": cv["published_total_seconds"]})
+        chk.violation("heating-total-lost", f"the heat-pump life counter lost running time or went backwards although every restore preceded the first publish after its restart: final total {cv['final_total_us'] / 1e6:.1f} s for {cv['heating_time_us'] / 1e6:.1f} s of heating, published {cv['published_total_seconds']}, history {cv['events']} (aN = N us of heating, k = kill/restart, r = restore of the retained value)", {"kind": "counter", "events": cv["events"], "published": cv["published_total_seconds"]})
     chk.note(
         "K3 (restore after the first post-restart publish) is exhibited on the real Duration class (k3_exhibit_on_real_Duration) but is not reachable "
         "in the normal startup order: the broker delivers the retained burst right after SUBSCRIBE (Mqtt.__on_connect), whereas the first publish of "
